@@ -1,7 +1,8 @@
 """What each registered check runs.  One table, so quick/thorough depth per property is visible in one place."""
 from . import core_check
 
-ASBUILT = ["del_marker_claims_reindented_line", "initial_is_line_numbers_only"]
+ASBUILT = ["del_marker_claims_reindented_line", "initial_is_line_numbers_only",
+           "stale_entry_applied_by_line_number"]
 
 RENDERS = [("plain", "plain"), ("hostile", "plain"), ("crlf", "subdir"), ("nonl", "spaces"),
            ("multibyte", "unicode"), ("long", "plain"), ("tabs", "dashy"), ("plain", "quoted")]
